@@ -98,14 +98,24 @@ def lean_phase(cfg, pid, tier, cmds):
             m = FORBIDDEN.search(strip_comments(open(f).read()))
             if m:
                 problems.append(f"forbidden token {m.group(0).strip()!r} in {os.path.relpath(f, ROOT)}")
-        # 3. build theorems + driver
-        b = run(["lake", "build", props_mod, "aurora-driver"], cwd=LEAN, timeout=3600)
-        cmds.append(f"(cd lean && lake build {props_mod} aurora-driver)")
-        names = theorem_names(props_path) if os.path.exists(props_path) else []
+        # 3. build the model driver (needed by the correspondence even when a proof breaks) ...
+        bd = run(["lake", "build", "aurora-driver"], cwd=LEAN, timeout=3600)
+        if bd.returncode != 0:
+            errs = [l for l in (bd.stdout + bd.stderr).splitlines() if "error" in l][:8]
+            problems.append("driver build failed: " + " | ".join(errs))
+        # ... then the theorems
+        mods = [props_mod] + list(cfg.get("lean_props_extra", []))
+        b = run(["lake", "build"] + mods, cwd=LEAN, timeout=3600)
+        cmds.append(f"(cd lean && lake build aurora-driver && lake build {' '.join(mods)})")
+        names = []
+        for m in mods:
+            mp = os.path.join(LEAN, m.replace(".", "/") + ".lean")
+            if os.path.exists(mp):
+                names += theorem_names(mp)
         obligations = [{"name": n, "axioms": None, "discharged": False} for n in names]
         if b.returncode != 0:
             errs = [l for l in (b.stdout + b.stderr).splitlines() if "error" in l][:8]
-            problems.append("lake build failed: " + " | ".join(errs))
+            problems.append("lake build failed (proof obligations do not check): " + " | ".join(errs))
             return obligations, problems
         if not names:
             problems.append("no theorems found in " + props_mod)
@@ -114,7 +124,7 @@ def lean_phase(cfg, pid, tier, cmds):
         os.makedirs(os.path.join(LEAN, "Audit"), exist_ok=True)
         ap = os.path.join(LEAN, "Audit", f"{pid}.lean")
         with open(ap, "w") as f:
-            f.write(f"import {props_mod}\n" + "".join(f"#print axioms {n}\n" for n in names))
+            f.write("".join(f"import {m}\n" for m in mods) + "".join(f"#print axioms {n}\n" for n in names))
         a = run(["lake", "env", "lean", ap], cwd=LEAN, timeout=1800)
         cmds.append(f"(cd lean && lake env lean Audit/{pid}.lean)   # #print axioms for every theorem")
         text = a.stdout + a.stderr
@@ -367,7 +377,7 @@ def body(args, cfg, pid, tier, seed, driver, work, cmds, t0):
     io = mo = None
     fails = []
     tmo = cfg.get("timeout_quick", 900) if tier == "quick" else cfg.get("timeout_thorough", 7200)
-    lean_ok = not any(p.startswith("lake build failed") for p in problems)
+    lean_ok = not any(p.startswith("driver build failed") for p in problems)
     if not harness_broken and lean_ok:
         io, mo, fails, e = exec_both(pid, driver, cases, work, "main", tmo)
         if e:
